@@ -8,6 +8,7 @@
 -/
 import TdVerif.Model.C07Storage
 import TdVerif.Model.C07Table
+import TdVerif.Model.C07SetStr
 import TdVerif.Lemmas.C07Storage
 import TdVerif.Lemmas.C07Table
 
@@ -190,6 +191,80 @@ theorem copy_fresh (src : Binds) : ∀ (specs : List (String × List Val)) (s : 
         refine ⟨?_, ih4⟩
         rw [mkLeaves_read_frame _ _ _ _ (by rw [allocLeaf_next, allocLeaf_sid]; exact Nat.lt_succ_self _)]
         exact allocLeaf_read s vals
+
+/-! ## 4b. chains: a tensordict-level in-place operation applied to the result of a view / a copy -/
+
+/-- **In-place on a view result is observed through the source**: take a view of entry `src`
+(`td.permute(...)`, `td[idx]`, `td.select(...)` …), then run an in-place operation on the *result*
+tensordict: the source entry holds the new values at exactly the selected positions, and nothing else of it changed. -/
+theorem view_then_inplace_observed (s : State) (td : Nat) (k src : String) (sel : List Nat) (vals : List Val) (l : Leaf)
+    (hl : (s.objs.getD td []).lookup src = some l) (hnd : l.offs.Nodup) (hsel : sel.Nodup)
+    (hr : ∀ i ∈ sel, i < l.offs.length) (hlen : sel.length = vals.length) :
+    (sel.map (fun i => (readLeaf (inplaceStep (deriveStep s td [(k, .alias src sel)]) s.objs.length [(k, vals)]).store l).getD i 0) = vals) ∧
+    (∀ i, i < l.offs.length → i ∉ sel →
+      (readLeaf (inplaceStep (deriveStep s td [(k, .alias src sel)]) s.objs.length [(k, vals)]).store l)[i]? = (readLeaf s.store l)[i]?) := by
+  have h1 : deriveStep s td [(k, .alias src sel)] = { s with objs := s.objs ++ [[(k, viewOf sel l)]] } := by
+    simp only [deriveStep, mkLeaves, hl, pushObj]
+  have h2 : (inplaceStep (deriveStep s td [(k, .alias src sel)]) s.objs.length [(k, vals)]).store
+      = writeLeaf s.store (viewOf sel l) vals := by
+    rw [h1]
+    simp only [inplaceStep, getD_append_length, inplaceWrites, List.lookup, beq_self_eq_true]
+  rw [h2]
+  exact view_write_through s.store l sel vals hnd hsel hr hlen
+
+/-- **In-place on a copy never reaches the source**: after a copy-class operation, whatever in-place
+operation runs on the result tensordict, every tensor that existed before reads the same. -/
+theorem copy_then_inplace_isolated (s : State) (td : Nat) (specs : List (String × List Val))
+    (writes : List (String × List Val)) (hwf : WF s) :
+    ∀ b ∈ s.objs, ∀ q ∈ b,
+      readLeaf (inplaceStep (deriveStep s td (specs.map (fun kv => (kv.1, Spec.fresh kv.2)))) s.objs.length writes).store q.2
+        = readLeaf s.store q.2 := by
+  intro b hb q hq
+  have hfr := copy_fresh (s.objs.getD td []) specs s
+  simp only [] at hfr
+  have hobjs : (deriveStep s td (specs.map (fun kv => (kv.1, Spec.fresh kv.2)))).objs
+      = s.objs ++ [(mkLeaves (s.objs.getD td []) s (specs.map (fun kv => (kv.1, Spec.fresh kv.2)))).2] := deriveStep_objs s td _
+  rw [inplace_frame]
+  · exact (outOfPlace_frame s td _ hwf).2.2.1 b hb q hq
+  · intro r hr
+    rw [hobjs, getD_append_length] at hr
+    intro hs
+    have h1 := (hfr.2.1 r hr).1
+    have h2 := hwf b hb q hq
+    omega
+
+/-! ## 4c. the write entry point `_set_str` -/
+
+/-- **`_set_str`, in-place branch** (`set_`, or `set(..., inplace=True)` on an existing key): succeeds
+also on a locked tensordict, leaves the bindings untouched, and every holder of the entry reads the new values -/
+theorem setStr_inplace_keeps (b : Binds) (st : Store) (locked : Bool) (mode : InplaceMode) (k : String)
+    (value dest : Leaf) (vals : List Val) (hm : mode ≠ .no) (hd : b.lookup k = some dest)
+    (hlen : dest.offs.length = vals.length) (hnd : dest.offs.Nodup) :
+    ∃ st', setStr b st locked mode k value vals = .ok (b, st') ∧ readLeaf st' dest = vals ∧
+      ∀ sel, readLeaf st' (viewOf sel dest) = sel.filterMap (fun i => vals[i]?) := by
+  refine ⟨writeLeaf st dest vals, ?_, readLeaf_writeLeaf_same st dest vals hnd hlen, fun sel => ?_⟩
+  · cases mode <;> simp [setStr, convertInplace, hd, hlen] at hm ⊢
+  · rw [readLeaf_viewOf, readLeaf_writeLeaf_same st dest vals hnd hlen]
+
+/-- **`_set_str`, rebinding branch** (`set` without `inplace`, or with `inplace=True` on a new key):
+refused on a locked tensordict; otherwise no memory is touched — holders of the old entry keep
+their values — and the entry *is* the caller's tensor afterwards -/
+theorem setStr_rebind (b : Binds) (st : Store) (locked : Bool) (mode : InplaceMode) (k : String)
+    (value : Leaf) (vals : List Val) (hm : mode = .no ∨ (mode = .best ∧ b.lookup k = none)) :
+    (locked = true → setStr b st locked mode k value vals = .error .lock) ∧
+    (locked = false → ∃ b', setStr b st locked mode k value vals = .ok (b', st) ∧ b'.lookup k = some value) := by
+  have hconv : convertInplace (b.lookup k).isSome mode = .ok false := by
+    rcases hm with rfl | ⟨rfl, hk⟩
+    · rfl
+    · simp [convertInplace, hk]
+  constructor
+  · intro hl; simp [setStr, hconv, hl]
+  · intro hl; exact ⟨setBind b k value, by simp [setStr, hconv, hl], lookup_setBind_self b k value⟩
+
+/-- `set_` on a missing entry is a KeyError (never a silent rebinding) -/
+theorem setStr_yes_missing (b : Binds) (st : Store) (locked : Bool) (k : String) (value : Leaf) (vals : List Val)
+    (hk : b.lookup k = none) : setStr b st locked .yes k value vals = .error .key := by
+  simp [setStr, convertInplace, hk]
 
 /-! ## 5. contiguous() -/
 
